@@ -79,6 +79,7 @@ refac_first5 = refac_first(f'{V}/refactorings/EVAL-round5-first-contact.txt')
 refac_first6 = refac_first(f'{V}/refactorings/EVAL-round6-first-contact.txt')
 refac_first7 = refac_first(f'{V}/refactorings/EVAL-round7-first-contact.txt')
 refac_first8 = refac_first(f'{V}/refactorings/EVAL-round8-first-contact.txt')
+refac_first9 = refac_first(f'{V}/refactorings/EVAL-round9-first-contact.txt')
 rh = parse_eval(f'{V}/refactorings/EVAL-on-head.txt')
 alarm_head = sorted(k for k, v in rh.items() if v not in ('NONE', 'n/a'))
 refac_head = (f'all {len(rh)} are silent for all 20 properties' if rh and not alarm_head else (f'{len(alarm_head)} of {len(rh)} still alarm: {", ".join(alarm_head)}' if rh else 'not recorded'))
@@ -92,7 +93,7 @@ parts.append(open(f'{V}/design/part1_head.md').read().rstrip() + '\n\n')
 parts.append(cat.rstrip() + '\n\n')
 parts.append(open(f'{V}/design/part2.md').read().rstrip() + '\n\n')
 p4 = open(f'{V}/design/part4_seeds_head.md').read()
-p4 = p4.replace('@SUMMARY@', '\n'.join(summary)).replace('@TABLE@', '\n'.join(rows)).replace('@REFAC_FIRST1@', refac_first1).replace('@REFAC_FIRST2@', refac_first2).replace('@REFAC_FIRST3@', refac_first3).replace('@REFAC_FIRST4@', refac_first4).replace('@REFAC_FIRST5@', refac_first5).replace('@REFAC_FIRST6@', refac_first6).replace('@REFAC_FIRST7@', refac_first7).replace('@REFAC_FIRST8@', refac_first8).replace('@REFAC_HEAD@', refac_head)
+p4 = p4.replace('@SUMMARY@', '\n'.join(summary)).replace('@TABLE@', '\n'.join(rows)).replace('@REFAC_FIRST1@', refac_first1).replace('@REFAC_FIRST2@', refac_first2).replace('@REFAC_FIRST3@', refac_first3).replace('@REFAC_FIRST4@', refac_first4).replace('@REFAC_FIRST5@', refac_first5).replace('@REFAC_FIRST6@', refac_first6).replace('@REFAC_FIRST7@', refac_first7).replace('@REFAC_FIRST8@', refac_first8).replace('@REFAC_FIRST9@', refac_first9).replace('@REFAC_HEAD@', refac_head)
 parts.append(p4.rstrip() + '\n\n')
 parts.append(open(f'{V}/design/part3_falsealarms.md').read().rstrip() + '\n')
 open(f'{V}/DESIGN.md', 'w').write(''.join(parts))
